@@ -24,6 +24,14 @@ RULES: Dict[str, str] = {
     'R-FORK-ALIAS': 'sa.rules.fork:run_alias',
     'R-SHALLOW-FORK': 'sa.rules.fork:run_shallow',
     'R-TERM-NAME-PROTOCOL': 'sa.rules.fork:run_term_names',
+    'R-SCAN-PROGRESS': 'sa.rules.scan:run',
+    'R-REPR-PARAM': 'sa.rules.repr:run_repr',
+    'R-WINDOW-BOUNDS': 'sa.rules.repr:run_window',
+    'R-XFORM-PARITY': 'sa.rules.xform:run_parity',
+    'R-NODE-NAME': 'sa.rules.xform:run_node_name',
+    'R-KEEP-PRED': 'sa.rules.shape:run_keep',
+    'R-PREFIX-PROTOCOL': 'sa.rules.shape:run_prefix',
+    'R-AMBIG-INDEX': 'sa.rules.shape:run_ambig_index',
 }
 
 PROPERTIES: Dict[str, dict] = {}
